@@ -1,13 +1,46 @@
 (* C02 -- Every placer returns a feasible, constraint-respecting placement or fails.
-   Property theorems only; each is closed by `exact` of a lemma of Proofs/Place*.v. *)
+   Property theorems only; each is closed by `exact` of a lemma of Proofs/Place*.v.
+   Model: Model/Place.v (outcomes: Ok placement | Failed 0 = InsufficientResourceError | Failed 1 =
+   InvalidConstraintError | OtherError = any other exception | OutOfFuel = oracle stream exhausted).
+   Spec: Spec/Place.v ([Feasible], [wf_problem] = the documented domain, [consistent]). *)
 From Coq Require Import ZArith List Bool.
-Require Import Rig.Model.Base Rig.Model.Place Rig.Spec.Place Rig.Proofs.Place.
+Require Import Rig.Model.Base Rig.Model.Place Rig.Spec.Place Rig.Proofs.Place Rig.Proofs.PlaceCore
+        Rig.Proofs.PlaceMerge Rig.Proofs.PlaceSeq.
 Import ListNotations.
 Open Scope Z_scope.
 
 (* V -- verified validator.  The check evaluates [check_placement] inside Coq on the real output of all
    seven placer configurations (SA with the C kernel, SA with the Python kernel, Hilbert, RCM, breadth-first,
-   sequential, random); each `true` is a proof that that output is feasible. *)
+   sequential, random); each `true` is a proof that that output is feasible.  For the C kernel (rig_c_sa,
+   compiled third-party code outside /repo) this per-output validation is all that applies. *)
 Theorem C02_check_placement_sound :
   forall vr m cs pl, check_placement vr m cs pl = true -> Feasible vr m cs pl.
 Proof. exact check_placement_sound. Qed.
+
+(* U -- sequential placer, for ANY chip order and ANY vertex order listing every vertex (None = the default
+   orders).  sequential.place, breadth_first.place, hilbert.place and rcm.place are this function applied to
+   their respective orders, so the one theorem covers the four: whatever is returned is feasible (every
+   vertex on exactly one working chip, no chip's resources exceeded after reservations, every location and
+   same-chip constraint honoured -- chained and duplicated group members included). *)
+Theorem C02_seq_place_sound :
+  forall vr m cs vertex_order chip_order pl,
+    wf_problem vr m cs -> consistent cs ->
+    (forall vo, vertex_order = Some vo -> forall v, In v (map fst vr) -> In v vo) ->
+    seq_place vr m cs vertex_order chip_order = Ok pl ->
+    Feasible vr m cs pl.
+Proof. exact seq_place_sound. Qed.
+
+(* U -- random placer, for every stream of random choices. *)
+Theorem C02_rand_place_sound :
+  forall vr m cs oracle pl,
+    wf_problem vr m cs -> consistent cs ->
+    rand_place vr m cs oracle = Ok pl -> Feasible vr m cs pl.
+Proof. exact rand_place_sound. Qed.
+
+(* Non-vacuity: a problem with a same-chip group, a location constraint on a member of the group, a global
+   reservation and a resource exception meets the hypotheses, and both placers succeed on it. *)
+Example C02_hypotheses_satisfiable :
+  wf_problem ex_vr ex_m ex_cs /\ consistent ex_cs
+  /\ seq_place ex_vr ex_m ex_cs None None = Ok [(3, (1, 0)); (4, (1, 0)); (1, (0, 0)); (2, (0, 0))]
+  /\ rand_place ex_vr ex_m ex_cs [1%nat; 0%nat; 5%nat] = Ok [(3, (1, 0)); (4, (0, 0)); (1, (0, 0)); (2, (0, 0))].
+Proof. exact ex_seq_instance. Qed.
